@@ -230,7 +230,10 @@ impl World {
     /// Execute one operation (a JSON object with "op") and log its event. Returns the event.
     pub fn exec(&mut self, op: &Value) -> Value {
         let name = op["op"].as_str().unwrap_or("?").to_string();
-        let ev = self.exec_inner(&name, op);
+        let f0 = crate::simdir::THREAD_FAULTS.with(|c| c.get());
+        let mut ev = self.exec_inner(&name, op);
+        // nf: injected faults that fired on the calling thread during this call
+        ev["nf"] = json!(crate::simdir::THREAD_FAULTS.with(|c| c.get()) - f0);
         self.tracer.emit(ev.clone());
         ev
     }
